@@ -64,7 +64,11 @@ theorem caller_cell_changes_only_under_documented_inplace (ops : List Op) (s : S
   refine ⟨pre, op, post, he, b, hb, ?_, hc⟩
   obtain ⟨r, hr, hp⟩ := hpub op (by rw [he]; simp)
   have hmem := row?_mem _ _ _ hr
-  simp only [writeSlots, hr, List.mem_map] at hs
+  simp only [writeSlots, hr] at hs
+  by_cases hgate : (inplaceGated.contains op.fn && !op.inplace) = true
+  · rw [if_pos hgate] at hs; exact absurd hs List.not_mem_nil
+  rw [if_neg hgate] at hs
+  simp only [List.mem_map] at hs
   obtain ⟨w, hw, hw1⟩ := hs
   have ht := documented_inplace_only
   simp only [tableOK, List.all_eq_true, Bool.or_eq_true, Bool.not_eq_true', List.contains_eq_mem, decide_eq_true_eq] at ht
@@ -125,9 +129,11 @@ frame theorem's conclusion is the in-place fit on the plane that holds cell 1 by
 example :
     let mk : Op := { fn := "plane.Plane.__init__", bind := [("amplitude", 0), ("opd", 1)], res := some 2, newVal := fun _ => 7,
                      newRng := 0, newCoords := freshCoords, evict := fun _ => false, key := none }
-    let fit : Op := { mk with fn := "plane.Plane.fit_tilt", bind := [("self", 2)], res := none }
+    let fit : Op := { mk with fn := "plane.Plane.fit_tilt", bind := [("self", 2)], res := none, inplace := true }
+    let fitCopy : Op := { fit with inplace := false, res := some 3 }
     let s0 : State := { val := fun _ => 0, refs := fun _ => [], rng := 0, cache := fun _ => none }
-    (run Gen.effTable s0 [mk, fit]).val 1 = 7 ∧ (run Gen.effTable s0 [mk, fit]).val 0 = 7 ∧ (run Gen.effTable s0 [mk]).val 1 = 0 := by
+    (run Gen.effTable s0 [mk, fit]).val 1 = 7 ∧ (run Gen.effTable s0 [mk, fit]).val 0 = 7 ∧ (run Gen.effTable s0 [mk]).val 1 = 0 ∧
+      (run Gen.effTable s0 [mk, fitCopy]).val 1 = 0 := by
   decide +kernel
 
 end Lentil.C10
